@@ -10,6 +10,8 @@ import (
 	"fmt"
 	"os"
 	"runtime/debug"
+	"strconv"
+	"syscall"
 )
 
 func main() {
@@ -18,6 +20,15 @@ func main() {
 		os.Exit(2)
 	}
 	debug.SetMaxStack(48 << 20)
+	// VERIF_NOFILE=n: at most n open files for this process, garbage collection off (no finaliser closes a forgotten
+	// file): a library that does not close what it opens runs out of descriptors after n reads
+	if v := os.Getenv("VERIF_NOFILE"); v != "" {
+		if n, err := strconv.Atoi(v); err == nil && n > 16 {
+			lim := syscall.Rlimit{Cur: uint64(n), Max: uint64(n)}
+			_ = syscall.Setrlimit(syscall.RLIMIT_NOFILE, &lim)
+			debug.SetGCPercent(-1)
+		}
+	}
 	in := bufio.NewReaderSize(os.Stdin, 1<<20)
 	out := bufio.NewWriterSize(os.Stdout, 1<<16)
 	defer out.Flush()
